@@ -1387,4 +1387,22 @@ class ConfigTextEngine(PPrintModelEngine):
     return ['--seeds', str(case['seed']), '--n', str(case['n'])]
 
 
-ENGINES = [SerialEngine(), ValueTextEngine(), DynStrEngine(), CornerEngine(), AtomModelEngine(), PPrintModelEngine(), ConfigTextEngine()]
+class PPrintStrEngine(PPrintModelEngine):
+  """coq/Model/PPrintStr.v (`pformat_s`: pformat INCLUDING pprint's splitting of long strings into adjacent literals,
+  over trees whose string atoms carry their content, through Model/StrLit.v's repr) against pprint.pformat of CPython,
+  character for character; every case also asserts ast.literal_eval(text) == value on the Python side."""
+  name = 'pprint-str-model'
+  script = 'pprint_str_corr.py'
+
+  def corpus(self):
+    return [{'seed': 0, 'n': 250}]
+
+  def gen(self, rng, tier):
+    return {'seed': rng.randrange(1, 10 ** 6), 'n': 1200}
+
+  def args(self, case):
+    return ['--seeds', str(case['seed']), '--n', str(case['n'])]
+
+
+ENGINES = [SerialEngine(), ValueTextEngine(), DynStrEngine(), CornerEngine(), AtomModelEngine(), PPrintModelEngine(), ConfigTextEngine(),
+           PPrintStrEngine()]
